@@ -175,7 +175,17 @@ def gen_spec(rng, tier):
     vals = []
     for i in range(int(rng.choice([0, 1, 2], p=[0.45, 0.35, 0.2]))):
         kind = str(rng.choice(["pinn", "pinn", "data", "recording"]))
-        v = {"kind": kind, "model": int(rng.integers(0, n_models)), "weight": 1.0}
+        if lbfgs and kind == "recording":
+            kind = "pinn"       # its own parameter would be a validation-only tensor inside the LBFGS flat vector
+        vm = int(rng.integers(0, n_models))
+        trained = sorted({c["model"] for c in conds if c.get("model") is not None and c["model"] < n_models})
+        if trained and (lbfgs or rng.random() < 0.7):
+            # LBFGS works on one flat vector of everything the optimizer holds: a validation-only network would change
+            # the summation layout of its dot products (a property-preserving float re-ordering), so it is not generated
+            vm = int(rng.choice(trained))
+        elif lbfgs:
+            continue
+        v = {"kind": kind, "model": vm, "weight": 1.0}
         if kind == "pinn":
             v["res"] = str(rng.choice(["r_dirichlet", "r_source", "r_lap", "r_heat", "r_datafn"]))
             v["sampler"] = _gen_sampler(rng)
@@ -324,15 +334,15 @@ def run_case(case):
 
     # determinism self-check of the reference (two fresh reference worlds must agree exactly)
     ref = R.run(spec, steps)
+    flat = [t for st in ref["traj"] for t in st]
+    if not all(bool(torch.isfinite(t).all()) for t in flat):
+        C["rejected_nonfinite_reference"] = 1      # the generated problem diverges: nothing to compare
+        return res
     if case.get("selfcheck", True) and steps <= 3:
         ref2 = R.run(spec, steps)
         if H.maxdiff(ref["traj"][-1], ref2["traj"][-1]) != 0.0:
             raise Inconclusive("reference loop not reproducible for this spec")
         C["reference_reproducibility_checks"] = 1
-    flat = [t for st in ref["traj"] for t in st]
-    if not all(bool(torch.isfinite(t).all()) for t in flat):
-        C["rejected_nonfinite_reference"] = 1
-        return res
     try:
         real = H.run_real(spec, steps)
     except Exception as e:
@@ -343,6 +353,11 @@ def run_case(case):
         raise Inconclusive("reachability walk differs between two fresh worlds")
     names = real.names
     C["fits"] = 1
+    C["cases_opt_" + spec["opt"]["cls"]] = 1
+    if spec["trainer"].get("limit_train_batches"):
+        C["cases_several_epochs"] = 1
+    if spec["vals"]:
+        C["cases_with_validation"] = 1
     C["learnable_tensors"] = len(names)
     for n in names:
         C["tensors_" + _what(n)] = C.get("tensors_" + _what(n), 0) + 1
@@ -385,8 +400,11 @@ def run_case(case):
     if real.opt_state is None:
         V.append(viol("no_optimizer", "trainer holds no optimizer after fit", **mech))
     elif lbfgs:
+        same_layout = real.rec.opt_param_ids is not None and len(real.rec.opt_param_ids) == len(names)
         for k, a in ref["opt_state"].items():
             b = real.opt_state.get(k)
+            if isinstance(a, torch.Tensor) and a.dim() > 0 and not same_layout:
+                continue    # flat vectors have another layout when the optimizer also holds validation-only tensors
             if isinstance(a, torch.Tensor):
                 d = _tdiff(a, b) if isinstance(b, torch.Tensor) else float("inf")
                 tol = 1e-6 + 1e-4 * float(a.abs().max()) if a.numel() else 0.0
@@ -499,6 +517,14 @@ def run_case(case):
             if not same:
                 V.append(viol("validation_changes_state", "validation run at global_step %d changed the optimizer state"
                               % gs, part="optimizer", **mech))
+                break
+    if real.val_only_params:
+        C["validation_only_tensors"] = len(real.val_only_params)
+        for n, a, b in zip(real.val_only_names, real.val_only_theta0, real.val_only_final):
+            res["judged"] += 1
+            if not torch.equal(a, b):
+                V.append(viol("validation_only_state_changed", "%s is reachable from validation conditions only but "
+                              "changed by %.3g during fit" % (n, _tdiff(a, b)), **mech))
                 break
     if spec["vals"] and not real.rec.val_snaps and steps >= spec["trainer"].get("val_interval", 1):
         C["validation_expected_but_not_run"] = 1
